@@ -304,3 +304,33 @@ func VerifC13Bcast() {
 
 // vAdvSign signs with the faulty sender's own key (real k1util natively; ideal token under the engine).
 func vAdvSign(h []byte) ([]byte, error) { return vK1Sign(vPriv[0], h) }
+
+func init() { VerifHarnesses["VerifC13Intf"] = VerifC13Intf }
+
+// VerifC13Intf: two overlapping signature requests of one peer for one message id reach an honest member; the second
+// request's whole handling runs at a lock boundary of the first (vrt.Interfere). The member must not sign two payloads.
+func VerifC13Intf() {
+	vInitKeys()
+	ctx := context.Background()
+	sess := []byte{1, 2, 3}
+	m1 := vNewMember(1, sess, func(proto.Message) byte { return 0 })
+	ida, idb := vID(vrt.Byte("ida")), vID(vrt.Byte("idb"))
+	ta, tb := vrt.Byte("taga"), vrt.Byte("tagb")
+	var errB error
+	vrt.Interfere(func() {
+		_, _, errB = m1.c.srv.handleSigRequest(ctx, vPeerID[0], &pb.BCastSigRequest{Id: idb, Message: vAny(tb)})
+	})
+	_, _, errA := m1.c.srv.handleSigRequest(ctx, vPeerID[0], &pb.BCastSigRequest{Id: ida, Message: vAny(ta)})
+	vrt.Assume(vrt.InterfererRan())
+	if errA == nil && errB == nil && ida == idb {
+		vrt.Assert("an honest member signs at most one payload per requesting peer and message id, however two requests overlap", ta == tb)
+		vrt.Reach("both requests signed")
+	}
+	// a third request afterwards for a different payload is refused
+	tc := vrt.Byte("tagc")
+	_, _, errC := m1.c.srv.handleSigRequest(ctx, vPeerID[0], &pb.BCastSigRequest{Id: ida, Message: vAny(tc)})
+	if errA == nil && errC == nil {
+		vrt.Assert("a later request for the same id is signed only for the payload signed before", tc == ta)
+	}
+	vrt.Reach("end")
+}
